@@ -28,13 +28,14 @@ var streams = []string{
 	"id:f\nid:g\n\nid:h\n",   // last one pending
 	"retry:1\nid:r\n\n: c\n", // trailing comment
 	"id:n\x00\ndata:w\n\n",    // an ID with NUL inside an event that IS dispatched: the remembered ID stays
+	"id:\xc3\xa9v\xe3\x82\xa4-2\n\n", // a UTF-8 ID
 	"",
 }
 
 var errGetBody = errors.New("scripted GetBody failure")
 
 type Params struct {
-	BodyKind    string // "nil", "nobody", "getbody", "nogetbody", "getbody-fails-2nd"
+	BodyKind    string // "nil", "nobody", "getbody", "nogetbody", "getbody-fails-2nd", "seekable" (implements io.Seeker, has GetBody)
 	MaxAttempts int
 	Outcomes    []ch.Outcome
 	// Calls > 1: Connect is called again on the same Connection after it returned for a reason other than the
@@ -55,6 +56,11 @@ type world struct {
 	// CallEnds: number of attempts made when the k-th Connect call returned
 	CallEnds []int
 }
+
+// seekBody is a request body that could be rewound - but the contract is GetBody
+type seekBody struct{ *strings.Reader }
+
+func (seekBody) Close() error { return nil }
 
 type plainReader struct{ r io.Reader }
 
@@ -86,7 +92,16 @@ func body(p Params) func() {
 		case "nogetbody":
 			rb = plainReader{strings.NewReader(reqBody)}
 		}
+		if p.BodyKind == "seekable" {
+			rb = seekBody{strings.NewReader(reqBody)}
+		}
 		req := ch.NewRequest(ctx, rb)
+		if p.BodyKind == "seekable" {
+			req.GetBody = func() (io.ReadCloser, error) {
+				w.GetCalls++
+				return seekBody{strings.NewReader(reqBody)}, nil
+			}
+		}
 		if p.BodyKind == "getbody-fails-2nd" {
 			orig := req.GetBody
 			req.GetBody = func() (io.ReadCloser, error) {
@@ -144,7 +159,7 @@ func check(p Params) func(r *vrt.Result) string {
 				return fmt.Sprintf("attempt %d carries %s, want %q (the ID of the most recently dispatched event): %s", i+1, got, last, desc())
 			}
 			switch p.BodyKind {
-			case "getbody", "getbody-fails-2nd", "nogetbody":
+			case "getbody", "getbody-fails-2nd", "nogetbody", "seekable":
 				if a.ReqBody != reqBody {
 					return fmt.Sprintf("attempt %d was sent with request body %q, want the complete body %q: %s", i+1, a.ReqBody, reqBody, desc())
 				}
@@ -174,6 +189,9 @@ func check(p Params) func(r *vrt.Result) string {
 		}
 		n := len(w.T.Attempts)
 		retryable := n > 0 && w.T.Attempts[n-1].Outcome.Kind != "reject"
+		if p.BodyKind == "seekable" && w.GetCalls < n-1 {
+			return fmt.Sprintf("%d attempts were made but GetBody was called only %d times (the body of every retry is to be obtained through GetBody): %s", n, w.GetCalls, desc)
+		}
 		switch p.BodyKind {
 		case "nogetbody":
 			if retryable && !w.T.Ended {
@@ -248,7 +266,7 @@ func Scenarios(tier string) []run.Scenario {
 	for _, bk := range []string{"nil", "getbody"} {
 		add(Params{BodyKind: bk, MaxAttempts: n, Outcomes: outcomes})
 	}
-	for _, bk := range []string{"nobody", "nogetbody", "getbody-fails-2nd"} {
+	for _, bk := range []string{"nobody", "nogetbody", "getbody-fails-2nd", "seekable"} {
 		add(Params{BodyKind: bk, MaxAttempts: n - 1 + 1, Outcomes: outcomes[:9]})
 	}
 	// longer histories over a smaller alphabet: the value persists across any number of failures
